@@ -21,7 +21,7 @@ TECH = {
     'C09': 'differential runtime monitor: in-memory vs saved+reloaded results through a library harness, CLI route comparison, narrow-file scenarios against the model; overflow-checked slice',
     'C10': 'history monitor: model table checked after every step of generated operation histories, final differential against a content-only fresh file',
     'C11': 'schedule-perturbation runtime monitor: repeated runs under thread counts, seeded jitter at hook points, CPU pinning; event log of (site,item,thread); ThreadSanitizer build (a slice in quick, every command in thorough)',
-    'C12': 'runtime monitor with two oracles (plus input fault injection, in-process multi-build through the harness, a multi-million k-mer gzip input): exact counting model of the output, and an offline checker over the hooked event log of the real counting filter (call sequence, Bloom no-false-negative, exactly-at-threshold accept)',
+    'C12': 'runtime monitor with two oracles (plus input fault injection, in-process multi-build through the harness, a multi-million k-mer gzip input, and in the thorough tier a deep sample holding more than 2^23 k-mers at one count at the same time): exact counting model of the output, and an offline checker over the hooked event log of the real counting filter (call sequence, Bloom no-false-negative, exactly-at-threshold accept)',
     'C13': 'runtime monitor: reference model plus model-free partition and idempotence relations',
     'C14': 'runtime monitor: exact-rational distance model over constructed tables; permutation, thread-count and file-history invariance; library second-call differential through the harness',
     'C15': 'complete enumeration of the lookup tables and classifiers dumped from the real code (native and under Miri) against set algebra; use-site monitors through build, map, align, weed and distance',
